@@ -14,7 +14,7 @@ EnvInt(name, default) == IF name \in DOMAIN IOEnv THEN atoi(IOEnv[name]) ELSE de
 MC_N       == EnvInt("IV_BOX", 2)          \* bounds -N .. N
 MC_B       == (-MC_N)..MC_N
 MC_Scalars == (-MC_N)..MC_N
-MC_W       == (-(MC_N * MC_N + 2 * MC_N + 1))..(MC_N * MC_N + 2 * MC_N + 1)
+MC_W       == (-(MC_N + 2))..(MC_N + 2)      \* every bound plus two outer witnesses on each side
 
 VARIABLES r1, r2, r3
 vars == <<r1, r2, r3>>
